@@ -222,6 +222,11 @@ def _audit(res, sc, saves, case, item, truth_only):
         chk("epochs_unique_increasing", len(set(jds)) == len(jds) and len(set(isos)) == len(isos)
             and all(b > a for a, b in zip(jds, jds[1:])) and sorted(isos) == isos, "epochs/not_unique_increasing",
             observed={"n": len(jds)})
+        # the table as the run wrote it (primary-key order) is in time order too: an epoch inserted late - by the
+        # clock for the configured span, by a save for the steps past it - never precedes an earlier-inserted later one
+        by_id = [float(r[0]) for r in _rows(conn, "SELECT julian_date FROM epochs ORDER BY id")]
+        chk("epochs_id_order_is_time_order", all(b > a for a, b in zip(by_id, by_id[1:])), "epochs/id_order_not_time_order",
+            observed=[(k, a, b) for k, (a, b) in enumerate(zip(by_id, by_id[1:])) if not b > a][:2])
         bad = [(i, j) for i, j in zip(isos, jds) if abs(float(datetimeToJulianDate(datetime.fromisoformat(i))) - j) > 1e-8]
         chk("epoch_timestamp_matches_jd", not bad, "epochs/timestamp_jd_mismatch", observed=bad[:2])
         jdset = set(jds)
